@@ -28,6 +28,9 @@ pub enum Item {
     Unknown(FrameSpec),
     /// synthetic frame for dictionary `dict` whose matches reach into / straddle the dictionary content
     Straddle { dict: DictSpec, spec: SynthSpec },
+    /// synthetic frame WITHOUT a dictionary whose match reaches before the start of the frame: invalid, and it must stay
+    /// invalid on a decoder that decoded dictionary frames before (no dictionary content may leak into it)
+    PlainBeyond { spec: SynthSpec },
 }
 
 #[derive(Clone, Debug, Serialize, Deserialize)]
@@ -159,6 +162,27 @@ pub fn gen_straddle(r: &mut Rng, id: u32, dict_len: usize, beyond: bool) -> Synt
     SynthSpec { header: SynthHeader { single_segment: false, fcs_width: 0, fcs_value: None, window_desc: synth::wd(wlog), checksum: r.chance(1, 2), dict_id: Some((id, 4)) }, blocks }
 }
 
+/// a no-dictionary frame with one offset reaching 1 ..= 3000 bytes before the start of the frame
+pub fn gen_plain_beyond(r: &mut Rng) -> SynthSpec {
+    let wlog = *r.pick(&[10u8, 11, 13, 17]);
+    let mut blocks = Vec::new();
+    let mut out = 0usize;
+    let align = r.urange(0, 40);
+    if align > 0 {
+        blocks.push(SynthBlock::Raw { seed: r.next_u64(), len: align as u32 });
+        out += align;
+    }
+    let ll = r.urange(0, 12) as u32;
+    let into = match r.below(3) {
+        0 => 1,
+        1 => r.urange(1, 40),
+        _ => r.urange(1, 3000),
+    };
+    let offset = out + ll as usize + into;
+    blocks.push(single_seq_block(r.next_u64(), ll, offset as u32, r.urange(3, 40) as u32, r.urange(0, 6) as u32));
+    SynthSpec { header: SynthHeader { single_segment: false, fcs_width: 0, fcs_value: None, window_desc: synth::wd(wlog), checksum: false, dict_id: None }, blocks }
+}
+
 pub struct BuiltItem {
     pub bytes: Vec<u8>,
     /// Some(D): must decode to D; None: must fail
@@ -172,6 +196,13 @@ pub fn build_item(it: &Item) -> Result<BuiltItem, HarnessError> {
         Item::Named(s) | Item::Idless(s) | Item::Plain(s) | Item::Unknown(s) => {
             let f = get_frame(s)?;
             Ok(BuiltItem { bytes: f.bytes.clone(), expect: Some(f.data.clone()), info: Some(f.info.clone()), frame: Some(f) })
+        }
+        Item::PlainBeyond { spec } => {
+            let b = synth::build(spec, &[], [1, 4, 8]);
+            match &b.expect {
+                Err(synth::ModelError::OffsetBeyondData) => Ok(BuiltItem { info: walker::walk(&b.bytes).ok(), bytes: b.bytes, expect: None, frame: None }),
+                other => Err(HarnessError(format!("plain-beyond frame is not invalid for the intended reason: {:?}", other.as_ref().map(|d| d.len()).map_err(|e| format!("{e:?}"))))),
+            }
         }
         Item::Straddle { dict, spec } => {
             let dd = load_dict(dict)?;
@@ -198,7 +229,7 @@ fn gen_item_program(r: &mut Rng, bytes_len: usize, header_len: usize, window: us
         FrontEnd::StreamBorrowed => gen_stream_program(r, window, 60),
         _ => vec![],
     };
-    Program { front, ops, source: SourceScript { chunks: gen_chunks(r), eof_at: None, faults: vec![] }, finisher: true, explicit_init: true, target: content_len + *r.pick(&[0usize, 0, 9]), prefix: r.urange(0, 4) }
+    Program { front, ops, source: SourceScript { chunks: gen_chunks(r), eof_at: None, faults: vec![], pauses: vec![] }, finisher: true, explicit_init: true, target: content_len + *r.pick(&[0usize, 0, 9]), prefix: r.urange(0, 4) }
 }
 
 impl Engine for C09 {
@@ -233,7 +264,7 @@ impl Engine for C09 {
         let n = r.urange(1, 6);
         let mut steps = Vec::new();
         for _ in 0..n {
-            let kind = r.below(12);
+            let kind = r.below(13);
             let item = match kind {
                 0..=3 => {
                     let d = r.pick(&registered).clone();
@@ -254,6 +285,7 @@ impl Engine for C09 {
                     Item::Idless(FrameSpec::Reference(rs))
                 }
                 6 | 7 => Item::Plain(draw_frame_spec(&mut r, &prof, pool)),
+                9 => Item::PlainBeyond { spec: gen_plain_beyond(&mut r) },
                 8 => {
                     let d = r.pick(&unknown).clone();
                     let mut rs = gen_ref_spec(&mut r, 2048, Some(d), true);
@@ -334,7 +366,11 @@ impl Engine for C09 {
                         "straddle_beyond"
                     }
                 }
+                Item::PlainBeyond { .. } => "plain_reaching_before_its_start",
             };
+            if matches!(st.item, Item::PlainBeyond { .. }) && prev_used_dict {
+                stats.inc("probe.plain_invalid_frame_after_dictionary_frame");
+            }
             stats.inc(&format!("item.{kind}"));
             if matches!(st.item, Item::Plain(_)) && prev_used_dict {
                 stats.inc("probe.plain_frame_after_dictionary_frame");
@@ -344,6 +380,7 @@ impl Engine for C09 {
                     stats.inc("probe.dict_frame_longer_than_window");
                 }
             }
+            let prev_used_dict_before = prev_used_dict;
             prev_used_dict = matches!(st.item, Item::Named(_) | Item::Idless(_) | Item::Straddle { .. });
             let jv = if let Some(p) = &t.panic {
                 Some(violation(format!("C09/panic:{}", panic_site(p)), p.clone()))
@@ -361,7 +398,9 @@ impl Engine for C09 {
                     }
                     (_, None) => {
                         // offset beyond dictionary + output: must be rejected
-                        if t.first_error.is_none() {
+                        if t.first_error.is_none() && matches!(st.item, Item::PlainBeyond { .. }) {
+                            Some(violation("C09/earlier_dictionary_affects_plain_frame", format!("a frame without dictionary whose match reaches before its start was accepted ({} bytes delivered; a dictionary frame preceded it: {prev_used_dict_before})", t.delivered.len())))
+                        } else if t.first_error.is_none() {
                             Some(violation("C09/offset_beyond_dictionary_accepted", format!("a match offset reaching one byte past dictionary plus output was accepted ({} bytes delivered)", t.delivered.len())))
                         } else {
                             None
@@ -461,6 +500,8 @@ impl Engine for C09 {
             "item.unknown_id",
             "item.straddle_valid",
             "item.straddle_beyond",
+            "item.plain_reaching_before_its_start",
+            "probe.plain_invalid_frame_after_dictionary_frame",
             "probe.plain_frame_after_dictionary_frame",
             "probe.dict_frame_longer_than_window",
             "probe.drain_mid_frame_nonempty",
